@@ -225,6 +225,13 @@ def build_message(s, rng):
             m.opt.proxy_scheme = "coap"
             if m.opt.uri_host is None:
                 m.opt.uri_host = "proxied-" + secret_token(rng, 4).decode()
+        elif name == "proxy_uri":
+            # a forward-proxy request: only scheme and authority may show in the outer message
+            path = [secret_token(rng, 9).decode() for _ in range(rng.randint(1, 2))]
+            query = ["k=" + secret_token(rng, 9).decode()]
+            m.opt.proxy_uri = "coap://origin-%s.example/%s?%s" % (secret_token(rng, 4).decode(), "/".join(path), "&".join(query))
+            secrets_ += [v.encode() for v in path + query]
+            m.proxy_split = (tuple(path), tuple(query))
         elif name == "observe":
             m.opt.observe = 0 if m.code.is_request() else rng.randrange(1, 1 << 20)
         elif name in ("uri_path", "location_path", "uri_query", "location_query"):
@@ -258,7 +265,11 @@ def build_message(s, rng):
 
 def inner_view(m):
     """What unprotect has to give back: code, end-to-end options, payload."""
-    opts = sorted((int(o.number), o.encode()) for o in m.opt.option_list() if int(o.number) not in U_OPTIONS and int(o.number) != 9)
+    opts = [(int(o.number), o.encode()) for o in m.opt.option_list() if int(o.number) not in U_OPTIONS and int(o.number) != 9]
+    split = getattr(m, "proxy_split", None)
+    if split:  # path and query of a Proxy-Uri travel in the inner message (RFC 8613 section 4.1.3.3)
+        opts += [(11, v.encode()) for v in split[0]] + [(15, v.encode()) for v in split[1]]
+    opts = sorted(opts)
     return (int(m.code), opts, bytes(m.payload))
 
 
@@ -291,6 +302,8 @@ class Genuine:
         self.answers = answers
         self.wire = on_wire(outer)
         self.req_piv = None  # partial IV of the request a response answers
+        self.obs = role == "req" and plain is not None and plain.opt.observe is not None
+        self.reqfetch = False  # (responses) the outer code of the request it answers was FETCH
 
 
 def deliver(g, rcpt_ctx, option, payload, rid):
@@ -368,7 +381,7 @@ def effect_of(g, option, payload):
 BLANK = {
     "k": "deliver", "role": "req", "e": "none", "rcpt": "peer", "own": True, "res": "msg", "equal": True,
     "pivtag": "abs", "pivv": "orig", "kid": "absent", "kidctx": "absent", "group": False, "reserved": False, "malformed": False, "ct": "ok",
-    "idc": "none", "sendctx": True, "ownpiv": False, "oc": 0, "optnums": [], "leak": False, "why": "", "mut": "", "option": "", "effect": "",
+    "idc": "none", "sendctx": True, "ownpiv": False, "oc": 0, "optnums": [], "leak": False, "why": "", "mut": "", "option": "", "effect": "", "obs": False, "reqfetch": False,
 }
 
 
@@ -385,7 +398,7 @@ class Recorder:
         wire = g.wire
         nums = [int(o.number) for o in g.outer.opt.option_list()]
         leak = [v.hex() for v in g.secrets if v and v in wire]
-        e = dict(BLANK, k="outer", role=g.role, oc=int(g.outer.code), optnums=sorted(set(nums)), leak=bool(leak), idc=self.idc, mut="outer " + ",".join(map(str, nums)) + (" leak " + ",".join(leak) if leak else ""))
+        e = dict(BLANK, k="outer", role=g.role, oc=int(g.outer.code), obs=bool(getattr(g, "obs", False)), reqfetch=bool(getattr(g, "reqfetch", False)), optnums=sorted(set(nums)), leak=bool(leak), idc=self.idc, mut="outer " + ",".join(map(str, nums)) + (" leak " + ",".join(leak) if leak else ""))
         self.events.append(e)
 
     def delivery(self, g, e_class, option, payload, rcpt="peer", rid=None, own=True, swapped=False, mut="", sendctx=True, ownpiv=False):
@@ -439,17 +452,23 @@ def field_edits(g, rcpt_peer, other):
     if kid is not None:
         out.append(("kid_other", opt(kid=flip(kid)), g.payload, False, "kid changed"))
         out.append(("kid_other", opt(kid=kid + b"\x00"), g.payload, False, "kid extended"))
+        if kid != b"":
+            out.append(("kid_other", opt(kid=b""), g.payload, False, "kid emptied"))
         out.append(("kid_remove", opt(kid=None), g.payload, False, "kid removed"))
     else:
         out.append(("kid_add_right", opt(kid=rcpt_peer.recipient_id), g.payload, False, "correct kid added"))
         out.append(("kid_add_wrong", opt(kid=flip(rcpt_peer.recipient_id)), g.payload, False, "wrong kid added"))
     if kidctx is not None:
         out.append(("kidctx_other", opt(kidctx=flip(kidctx)), g.payload, False, "kid context changed"))
+        if kidctx != b"":
+            out.append(("kidctx_other", opt(kidctx=b""), g.payload, False, "kid context emptied"))
         out.append(("kidctx_remove", opt(kidctx=None), g.payload, False, "kid context removed"))
     else:
         if rcpt_peer.id_context is not None:
             out.append(("kidctx_add_right", opt(kidctx=rcpt_peer.id_context), g.payload, False, "correct kid context added"))
         out.append(("kidctx_add_wrong", opt(kidctx=b"\x55\xaa"), g.payload, False, "wrong kid context added"))
+        if rcpt_peer.id_context != b"":
+            out.append(("kidctx_add_wrong", opt(kidctx=b""), g.payload, False, "empty kid context added"))
     out.append(("flag_group", opt(group=True), g.payload, False, "group flag set"))
     out.append(("flag_reserved", opt(reserved=0x40), g.payload, False, "reserved flag 0x40 set"))
     out.append(("flag_reserved", opt(reserved=0x80), g.payload, False, "reserved flag 0x80 set"))
@@ -504,6 +523,7 @@ def run_sample(s):
         outer, _ = protect(server, plain, rids_s[0])
         g = Genuine("resp", plain, outer, secrets_, rids_c[0], answers=0)
         g.req_piv = pivs[0]
+        g.reqfetch = bool(s.get("req_observe"))
         server.sender_sequence_number = s["srvseq"] + 1 if s["srvseq"] + 1 < MAXSEQ - 1 else s["srvseq"] - 1
         outer2, _ = protect(server, aiocoap.Message(code=aiocoap.CONTENT, payload=b"other response"), rids_s[1])
         other = Genuine("resp", aiocoap.Message(code=aiocoap.CONTENT), outer2, [], rids_c[1], answers=1)
@@ -574,6 +594,7 @@ def run_behaviour(b):
             outer, _ = protect(server, m, rid)
             g = Genuine("resp", m, outer, [m.payload], net[a["ri"] - 1].client_rid, answers=a["ri"])
             g.req_piv = net[a["ri"] - 1].fields["piv"]
+            g.reqfetch = net[a["ri"] - 1].obs
             g.sendctx = True
             g.ownpiv = bool(a["own"])
             net.append(g)
@@ -753,9 +774,15 @@ def run_session(s):
                 if (st["id"], st["rq"]) in delivered:
                     situation += "+duplicate" if situation != "duplicate" else ""
                 delivered[(st["id"], st["rq"])] = True
-                res, equal, why, _ = unprotect(dst, m["wire"], clone_rid(q["rid"]), m["view"])
+                # the requester keeps ONE RequestIdentifiers object per request (as transports/oscore.py does) and
+                # passes it for every response to that request; only deliberately foreign pairings get a copy
+                same_object = own
+                if own:
+                    q["uses"] = q.get("uses", 0) + 1
+                res, equal, why, _ = unprotect(dst, m["wire"], q["rid"] if same_object else clone_rid(q["rid"]), m["view"])
                 emit(k="rx_resp", x=dst, id=st["id"], rq=st["rq"], own=own, n=m["n"], res=res, equal=equal, why=why, kind="resp-ownpiv" if m["n"] >= 0 else "resp-reuse", situation=situation)
-        return {"trace": events, "meta": {"unexpected": [], "drift": notes, "session": True}}
+        reused_rid = sum(1 for q in net if q.get("uses", 0) >= 2)
+        return {"trace": events, "meta": {"unexpected": [], "drift": notes, "session": True, "requests_whose_identifiers_served_several_responses": reused_rid}}
     finally:
         for c in ctx.values():
             lock = getattr(c, "lockfile", None)
@@ -928,6 +955,8 @@ def _run(x):
         return run_behaviour(x) if "steps" in x else run_sample(x)
     except ProtectFailed as e:
         # no protected message exists: nothing for C11 to judge
+        if "proxy_uri" in x.get("opts", ()):
+            return {"trace": [], "meta": {"unexpected": [], "drift": [], "proxy_uri_refused": 1}}
         return {"trace": [], "meta": {"unexpected": [], "drift": ["protect() refused a message of the domain: %s" % e]}}
     except MachineryError as e:
         return {"error": "MachineryError: %s" % e}
@@ -973,6 +1002,8 @@ def samples(rng, count, thorough):
         opts = rng.sample(pool, min(nopt, len(pool)))
         if "proxy_scheme" in opts and "uri_host" not in opts:
             opts.append("uri_host")
+        if role == "req" and i % 33 == 9:
+            opts = ["proxy_uri"] + [o for o in opts if o not in ("uri_host", "uri_port", "proxy_scheme", "uri_path", "uri_query")]
         out.append(
             {
                 "role": role,
@@ -1005,14 +1036,21 @@ def behaviours_from_sim(behs):
 
 
 # -- verdicts ------------------------------------------------------------------------------------------
-JUDGED = ("k", "role", "e", "rcpt", "own", "res", "equal", "pivtag", "pivv", "kid", "kidctx", "group", "reserved", "malformed", "ct", "idc", "sendctx", "ownpiv", "oc", "optnums", "leak")
+JUDGED = ("k", "role", "e", "rcpt", "own", "res", "equal", "pivtag", "pivv", "kid", "kidctx", "group", "reserved", "malformed", "ct", "idc", "sendctx", "ownpiv", "oc", "optnums", "leak", "obs", "reqfetch")
+
+
+def expected_outer_code(ev):
+    """(for signatures and messages only; the judgement is TLC's ExpectedOuterCode)"""
+    if ev["role"] == "req":
+        return 5 if ev["obs"] else 2
+    return 69 if ev["reqfetch"] else 68
 
 
 def sig_of(clause, ev, item):
     """clause + what was manipulated + what came out (stable across samples)."""
     if ev["k"] == "outer":
         extra = sorted(set(ev["optnums"]) - {3, 6, 7, 9, 35, 39})
-        return "%s|%s|outer code=%d extra_options=%s leak=%s" % (clause, ev["role"], ev["oc"], extra, ev["leak"])
+        return "%s|%s|outer code=%d%s extra_options=%s leak=%s" % (clause, ev["role"], ev["oc"], "" if ev["oc"] == expected_outer_code(ev) else " (statement: %d)" % expected_outer_code(ev), extra, ev["leak"])
     what = ev["e"]
     if what == "bitflip":
         if ev["res"] == "other":
@@ -1066,7 +1104,7 @@ def validate_and_report(rep, wd, items, results, timeout=1800):
                         clause,
                         sg,
                         "clause %s false on a real result (%d results with this record): %s\n%s"
-                        % (clause, len(members), json.dumps({k: ev[k] for k in ("k", "role", "e", "rcpt", "own", "res", "equal", "why", "mut", "option", "oc", "optnums", "leak")}), describe(item, ev)),
+                        % (clause, len(members), json.dumps({k: ev[k] for k in ("k", "role", "e", "rcpt", "own", "res", "equal", "why", "mut", "option", "oc", "obs", "reqfetch", "optnums", "leak")}), describe(item, ev)),
                         {"item": item, "event": ev, "index": j},
                     )
     return sum(len(r["trace"]) for r in results), len(keys), ndrift, nviol_events
@@ -1229,6 +1267,10 @@ def work(rep, args):
                         key = "%s %s" % (e["kind"], part)
                         sit[key] = sit.get(key, 0) + 1
         need_sit = {"resp-ownpiv fresh", "resp-ownpiv duplicate", "resp-ownpiv below-window", "resp-ownpiv number-seen-in-window", "resp-ownpiv uninitialised-window", "resp-reuse nonce-reused"}
+        rid_reuse = sum(r["meta"].get("requests_whose_identifiers_served_several_responses", 0) for r in sess_results)
+        if rid_reuse:
+            sit["same RequestIdentifiers object used for several responses"] = rid_reuse
+        need_sit.add("same RequestIdentifiers object used for several responses")
         if need_sit - set(sit) and not rep.violations:
             raise MachineryError("session situations never exercised: %s" % sorted(need_sit - set(sit)))
         for it, res in zip(sessions, sess_results):
@@ -1262,6 +1304,8 @@ def work(rep, args):
                 "sessions_on_file_backed_contexts": sum(1 for x in sessions if x.get("fs")),
                 "attacker_behaviours_from_simulation": len(behs),
                 "sample_messages": len(smp),
+                "proxy_uri_requests": sum(1 for x in smp if "proxy_uri" in x["opts"]),
+                "proxy_uri_requests_refused_by_protect": sum(r["meta"].get("proxy_uri_refused", 0) for r in results),
                 "traces_validated_against_impl": validated,
                 "distinct_result_records_judged_by_tlc": distinct_records,
                 "results_violating_a_clause": nviol_events,
